@@ -507,9 +507,10 @@ class _WFile(object):
 
     BUFFER = 8192      # io.DEFAULT_BUFFER_SIZE: what a buffered stream holds before it has to go to the device
 
-    def __init__(self, f, path):
+    def __init__(self, f, path, raw=False):
         self._f = f
         self._p = path
+        self._raw = raw        # opened with buffering=0: write() is the system call and reports a SHORT COUNT instead of raising
         self._late = None      # bytes lost so far in the buffer of a LATE fault (spec/BufWriter.tla)
 
     def _surface(self, where):
@@ -532,6 +533,14 @@ class _WFile(object):
         hit = (AUDIT.fault_at is not None and AUDIT.points == AUDIT.fault_at) or \
             os.path.abspath(self._p) in AUDIT.dead
         AUDIT.events.append({"ev": "WP", "what": "write", "path": os.path.abspath(self._p), "faulted": hit})
+        if hit and self._raw and os.path.abspath(self._p) not in AUDIT.dead and len(data) > 1:
+            # unbuffered file on a device that fills up: part of the bytes are taken and the count is returned; the NEXT write
+            # (the retry of the remainder by a caller that looked at the count) fails outright
+            AUDIT.faulted = True
+            AUDIT.dead.add(os.path.abspath(self._p))
+            n = len(data) // 2
+            self._f.write(bytes(data)[:n])
+            return n
         if hit:
             AUDIT.faulted = True
             if AUDIT.late and len(data) <= self.BUFFER:
@@ -589,7 +598,8 @@ def _open_wrapper(file, mode="r", *a, **kw):
         finally:
             AUDIT.in_wrapper = False
         if AUDIT.fault_at is not None or AUDIT.count_writes:
-            return _WFile(f, os.fsdecode(file))
+            buffering = kw.get("buffering", a[0] if a else -1)
+            return _WFile(f, os.fsdecode(file), raw=(buffering == 0))
         return f
     return _REAL_OPEN(file, mode, *a, **kw)
 
